@@ -1,1 +1,3 @@
-From GV_h265 Require Import Model.
+(* rtph265 proofs, split by theme: encoder (C06), decoder invariants on arbitrary histories (C08),
+   round trip (C03), resynchronisation (C07). *)
+From GV_h265 Require Export Model ProofsEnc ProofsDec ProofsRound ProofsResync.
